@@ -57,6 +57,13 @@ CFG = dict(
                "cases; at the binary64 dictionary the run executes: linspace never panics and has exactly n elements, range "
                "is a capacity-overflow panic or count elements. Still open at binary64: that the count equals the number of "
                "progression terms before end, and end-point accuracy of linspace (proved over Q; compared by the run). "
+               "UninitVec::set, the checked single-slot write (5 further theorems, Proofs/LooseEnds.v, model Collect.uninit_set which the "
+               "interpreters run_uninit_set / run_uninit_set_buf execute): for every buffer, index and value, Ok with one uset call at "
+               "idx, that slot replaced and every other slot and the length unchanged iff idx < len, otherwise Err with no uset call "
+               "and the buffer unchanged, never a panic, never a call naming a slot outside 0..len (C19_uninit_set_total — the statement "
+               "pins the guard: with `<=` the model would make a call at idx = len, which the last clause excludes); any sequence of "
+               "sets in closed form, each call judged on its own index; len sets at 0..len-1 over any previous content make the buffer "
+               "exposable and equal to the written values, likewise in any order on a fresh buffer; an unnamed slot keeps assume_init undefined. "
                "The model is tied to the code by an exhaustive small-scope differential run through the public API. "
                "Second, static tie (translator): the exhaustion test / increment / element formula start + step * i of Linspace::next and next_back, size_hint, the n > 1 / (b - a) / (n - 1) step of linspace, the emptiness guard of range (operator per sign of step), its count expression (span / step, ceil, remainder, the + 1 adjustment with its four operators) and the defaults of Vec1Create::range / linspace are re-extracted from linspace.rs / create.rs on every run and Proofs/SrcTablesMapGen.v re-proves, for every Number dictionary, argument and iterator state, that Model/Create.v uses exactly those (src_ls_next_conforms, src_ls_next_back_conforms, src_ls_size_hint_conforms, src_linspace_new_conforms, src_range_new_conforms, src_create_range_conforms, src_create_linspace_conforms).",
     src_tables=True,   # tools/gen_tables.py (+ gen_tables_map.py): decision tables regenerated from the Rust source on every run
